@@ -67,7 +67,8 @@ def deep_ok(n=100):
 
 BAD_QUERIES = {
     "syntax": ["$[", "$.a.", "$[?@.a ==]", "$..", "$[1:2 3]", "$.a b", "$['a", "$[?(@.a]", "$[?@.a==01]", "$[?!!@.a]", " $", "$ ", "$[?@.a=1]", "$[,]", "$.\t",
-               "", "$..\n[0]", "$.\na", "$..\r\n*", "$[?@.a ==\n]", "$\n\n!", "$['a\nb']", "$[\n\x0c]", "\n", "$.a\n.\nb.", "$[?@.a == 'x\ny']"],
+               "", "$..\n[0]", "$.\na", "$..\r\n*", "$[?@.a ==\n]", "$\n\n!", "$['a\nb']", "$[\n\x0c]", "\n", "$.a\n.\nb.", "$[?@.a == 'x\ny']",
+               "@.a", "@", "@[0]", "@args.txt", "@/dev/null", "@$", "a", "$a", "+$", "~", "@.a == 1", "%", "@\n"],
     "type": ["$[?length(@.a, @.b)]", "$[?count(@.a) ]x", "$[?length(@.*)==1]", "$[?count(1)==1]", "$[?match(@.a)]", "$[?value(@.a)]", "$[?@.* == 1]", "$[?length(@.a)]"],
     "index": ["$[9007199254740992]", "$[-9007199254740992]", "$[1:9007199254740992]", "$[::99999999999999999999]"],
     "name": ["$[?nope(@)]", "$[?undefined_fn(@.a) == 1]", "$[?foo()]"],
@@ -110,6 +111,13 @@ def make_case(R):
         doc = {"ref": deep_ok(n), "k": [{"v": deep_ok(n), "id": 1}, {"v": 1, "id": 2}]}
         return {"kind": "deep-comparison", "query": R.choice(["$.k[?@.v == $.ref].id", "$.k[?@.v != $.ref].id", "$.k[?$.ref == @.v]"]), "doc_value": doc,
                 "doc_bytes": json.dumps(doc).encode(), "expect": "ok"}
+    if r < 0.765:
+        # deeply nested but valid filter expressions: whatever find() does with them, the tool reports in its own words
+        k = R.choice([40, 99, 100, 101, 120, 200, 300])
+        text = R.choice(["$[?" + "(" * k + "@.a" + ")" * k + "]", "$[?" + "!(" * k + "@.a" + ")" * k + "]", "$" + "[?@" * k + "]" * k, "$[?" + "(" * k + "@.a == 1" + ")" * k + " || @.b]",
+                         "$[?length(" + "value(" * 0 + "@.a" + ")" * 1 + " == " + "(" * 0 + "1]"])
+        doc = [{"a": 1}, {"b": 2}, [[{"a": 1}]]]
+        return {"kind": "deep-query", "query": text, "doc_value": doc, "doc_bytes": json.dumps(doc).encode(), "expect": "ok"}
     if r < 0.82:
         doc = deep_late(R)
         return {"kind": "evaluation-error", "query": R.choice(["$..*", "$..[*]", "$..a", "$..[?@]", "$.*..*"]), "doc_value": doc, "doc_bytes": json.dumps(doc).encode(), "expect": "fail"}
@@ -171,7 +179,7 @@ def judge(case, o, rc, out, err, outfile_content, expected_values):
     """Returns (key, detail) or None."""
     produced = outfile_content if o["out_via"] != "stdout" else out
     other = out if o["out_via"] != "stdout" else None
-    if case["expect"] == "ok":
+    if case["expect"] == "ok" or (case["expect"] == "either" and rc == 0 and expected_values is not None):
         if rc != 0:
             return "valid-case-fails", {"exit": rc, "stderr": err[-300:]}
         if other:
@@ -188,6 +196,8 @@ def judge(case, o, rc, out, err, outfile_content, expected_values):
             return "pretty-has-no-effect", {"output": produced[:100]}
         return None
     # failure expected
+    if rc == 0 and case["expect"] == "either":
+        return None   # succeeded where this process could not compute the expected values even with a large stack
     if rc == 0:
         return "failure-exits-zero", {"stdout": (out or "")[:200], "kind": case["kind"]}
     if (out or "").strip():
@@ -209,6 +219,31 @@ def expected(jp, case):
     from jsonpath_rfc9535 import JSONPathEnvironment
     doc = json.loads(case["doc_bytes"])
     return JSONPathEnvironment().find(case["query"], doc).values()
+
+
+def expected_with_room(jp, case):
+    """find() evaluated in a thread with a 512 MiB stack and a high recursion limit; None if even that fails."""
+    import threading
+    box = []
+
+    def work():
+        old = sys.getrecursionlimit()
+        sys.setrecursionlimit(200000)
+        try:
+            from jsonpath_rfc9535 import JSONPathEnvironment
+            box.append(JSONPathEnvironment().find(case["query"], json.loads(case["doc_bytes"])).values())
+        except BaseException:  # noqa: BLE001
+            pass
+        finally:
+            sys.setrecursionlimit(old)
+    old_size = threading.stack_size(512 * 1024 * 1024)
+    try:
+        t = threading.Thread(target=work)
+        t.start()
+        t.join(60)
+    finally:
+        threading.stack_size(old_size)
+    return box[0] if box else None
 
 
 def run_subprocess(repo, argv, stdin):
@@ -253,12 +288,19 @@ def one(jp, rec, R, how, repo):
     try:
         exp = expected(jp, case)
     except RecursionError:
-        # the evaluation itself fails in-process: the CLI must fail gracefully too
-        case = dict(case, expect="fail", kind=case["kind"] + ":evaluation-raises")
-        exp = None
+        # the evaluation runs out of interpreter stack here; whether it does in the tool's own process depends on how deep the
+        # stack already is there, so either outcome is accepted: exit 0 with exactly the values find() gives when it has room
+        # (computed below in a thread with a large stack), or a graceful one-line failure
+        case = dict(case, expect="either", kind=case["kind"] + ":evaluation-raises")
+        exp = expected_with_room(jp, case)
     except Exception as e:  # noqa: BLE001
-        rec.note("expected() failed for a 'valid' case: %r %s" % (case["query"], e))
-        return
+        from jsonpath_rfc9535 import JSONPathError
+        if not isinstance(e, JSONPathError):
+            rec.note("expected() failed for a 'valid' case: %r %s" % (case["query"][:200], e))
+            return
+        # find() itself refuses this input (not this property's business): the tool must then fail in its own words
+        case = dict(case, expect="fail", kind=case["kind"] + ":find-raises-" + type(e).__name__)
+        exp = None
     with tempfile.TemporaryDirectory(prefix="vfcli") as td:
         argv, stdin, outf = build_argv(td, case, o)
         rec.wal({"argv": argv, "kind": case["kind"]})
@@ -289,12 +331,12 @@ def one(jp, rec, R, how, repo):
     shape = "%s|%s|%s|%s|%s" % (o["query_via"], o["doc_via"], o["out_via"], "pretty" if o["pretty"] else "compact", "debug" if o["debug"] else "nodebug")
     rec.feat("argv:" + shape)
     rec.feat("kind:%s:%s" % (case["kind"], how))
-    nt = case["expect"] == "fail" or bool(exp)
+    nt = case["expect"] in ("fail", "either") or bool(exp)
     rec.case((shape, case["query"], case["doc_bytes"][:2000], how), nt)
     if nt:
         rec.sample({"argv": argv, "kind": case["kind"], "exit": rc, "stderr": err[:120]}, limit=8)
     if v:
-        rec.violation(v[0] + (":" + case["kind"] if case["expect"] == "fail" else ""), dict(v[1], argv=argv, stdin=(stdin or b"")[:200].decode("utf-8", "replace"), how=how,
+        rec.violation(v[0] + (":" + case["kind"] if case["expect"] in ("fail", "either") else ""), dict(v[1], argv=argv, stdin=(stdin or b"")[:200].decode("utf-8", "replace"), how=how,
                                                                                            query=case["query"], document=case["doc_bytes"][:300].decode("utf-8", "replace")))
 
 
